@@ -11,3 +11,5 @@ import Verif.Properties.C14
 #print axioms C14.required_consumes_union
 #print axioms C14.required_produces_union
 #print axioms C14.required_security_union
+#print axioms C14.operationFor_case_insensitive
+#print axioms C14.operationFor_unknown_method
